@@ -446,6 +446,12 @@ func fileSeek(L *LState) int {
 	if err != nil {
 		goto errreturn
 	}
+	if bwriter, ok := file.writer.(*bufio.Writer); ok {
+		// bytes still buffered after setvbuf("full") belong in front of the position being left
+		if err = bwriter.Flush(); err != nil {
+			goto errreturn
+		}
+	}
 
 	pos, err = file.fp.Seek(L.CheckInt64(3), L.CheckOption(2, fileSeekOptions))
 	if err != nil {
